@@ -70,6 +70,8 @@ type Contract struct {
 	Sweep      bool // only safety obligations (no functional contract)
 	Opts       map[string]string
 	CallSites  map[string][]*Clause // function type name -> obligations at dynamic call sites
+	LemmaParams string // lemma: Go parameter list
+	Induction  string // lemma: induction variable
 }
 
 func (c *Contract) AllClauses() []*Clause {
@@ -85,6 +87,13 @@ func (c *Contract) AllClauses() []*Clause {
 	}
 	out = append(out, c.Modifies...)
 	return out
+}
+
+func (c *Contract) funcName() string {
+	if c == nil {
+		return ""
+	}
+	return c.Func
 }
 
 func (c *Contract) HasProp(p string) bool {
@@ -167,6 +176,15 @@ func ParseContracts(path string) (*ContractFile, error) {
 			cf.Contracts[rest] = cur
 			cf.Order = append(cf.Order, rest)
 			continue
+		case "lemma":
+			name := "lemma:" + rest
+			cur = &Contract{Func: name, Line: pendingLine, Invariants: map[int][]*Clause{}, Opts: map[string]string{}, CallSites: map[string][]*Clause{}}
+			if _, dup := cf.Contracts[name]; dup {
+				return nil, fmt.Errorf("%s:%d: duplicate lemma %s", path, pendingLine, rest)
+			}
+			cf.Contracts[name] = cur
+			cf.Order = append(cf.Order, name)
+			continue
 		case "guarded":
 			// guarded Container: webServices ServeMux by webServicesLock [when dynamicRoutes]
 			g, err := parseGuard(rest)
@@ -194,6 +212,10 @@ func ParseContracts(path string) (*ContractFile, error) {
 		switch word {
 		case "props":
 			cur.Props = strings.Fields(rest)
+		case "forall":
+			cur.LemmaParams = rest
+		case "induction":
+			cur.Induction = rest
 		case "requires":
 			cur.Requires = append(cur.Requires, mkClause("requires", rest, pendingLine, &auto))
 		case "ensures":
